@@ -22,7 +22,7 @@ def main():
         return mod.replay(json.load(open(a.replay)))
     rep = C.Report(prop, a.tier, seed)
     rng = random.Random(seed)
-    with C.build_lock():
+    with C.build_lock():          # translate + make share coq/; the correspondence run below does not need the lock
         try:
             mod.translate()
         except Exception as e:   # fail closed: the model is no longer tied to the source
@@ -30,11 +30,11 @@ def main():
             traceback.print_exc()
         obligations, makelog = C.compile_obligations(prop, getattr(mod, 'COQ_EXTRA', []))
         gate = C.grep_gate()
-        try:
-            mod.run(rep, a.tier, rng)
-        except Exception as e:
-            traceback.print_exc()
-            rep.broken.append("harness error (check could not complete): %r" % (e,))
+    try:
+        mod.run(rep, a.tier, rng)
+    except Exception as e:
+        traceback.print_exc()
+        rep.broken.append("harness error (check could not complete): %r" % (e,))
     checker = "cd /verif/coq && make -f Makefile.coq -k theories/Props/%s/*.vo && coqc -Q theories OfxV theories/Props/%s/<each>.v" % (prop, prop)
     return C.finish(rep, obligations, gate, checker, getattr(mod, "PARTIAL", []))
 
